@@ -210,6 +210,7 @@ def letters(seed):
     add("CNOT(a,b)", cirq.CNOT(a, b), "u", [CNOT], cls="CNOT", core=3)
     add("CNOT(b,a)", cirq.CNOT(b, a), "u", [CNOT], cls="CNOT")
     add(f"CZ(b,a)^{g2}", cirq.CZ(b, a) ** g2, "u", [np.diag([1, 1, 1, np.exp(1j * np.pi * g2)])], cls="CZPow", core=1)
+    add("GlobalPhase(1j)", cirq.global_phase_operation(1j), "u", [np.array([[1j]])], cls="GlobalPhase")
     add("U3(t)", cirq.MatrixGate(u3, qid_shape=(3,)).on(t), "u", [u3], cls="MatrixGate3")
     add("U6(b,t)", cirq.MatrixGate(u6, qid_shape=(2, 3)).on(b, t), "u", [u6], cls="MatrixGate23", core=1)
 
@@ -528,24 +529,30 @@ def run_dm(case):
         ref = ref_run(seq, n, rho0, False)
         ref_tot = sum(ref.values())
         got = []
-        has_m = any(_L[li].kind == "m" for li in seq)
-        if has_m:
-            # non-terminal measurements / classical control: final_density_matrix defers the measurements onto ancillas
-            # which it expects at the end of the DEFAULT qubit order (an explicit order list is rejected with "Unexpected
-            # extra qubits": reported by stage final_density_matrix_api);
-            # the result lives on the qubits the circuit touches (idle qubits are a |0><0| factor of the reference).
-            order = cirq.QubitOrder.DEFAULT
+        # An explicit qubit order is tried first.  With non-terminal measurements / classical control final_density_matrix
+        # defers the measurements onto ancillas and may reject an explicit order ("Unexpected extra qubits": reported once by
+        # stage api_acceptance); then the DEFAULT order is used: the result lives on the qubits the circuit touches (idle
+        # qubits are a |0><0| factor of the reference).
+        state = {"order": qs, "ref": ref_tot}
+
+        def fallback_order():
             touched = sorted(full.all_qubits())
             keep = [qs.index(q) for q in touched]
+            state["order"] = cirq.QubitOrder.DEFAULT
             if keep != list(range(len(qs))):
-                ref_tot = E.partial_trace(ref_tot, keep, SHAPE[n])
-        else:
-            order = qs
+                state["ref"] = E.partial_trace(ref_tot, keep, SHAPE[n])
 
         def one(ch):
             try:
-                return cirq.final_density_matrix(full, qubit_order=order, dtype=DT[dt], seed=ScriptedRandomState(ch),
-                                                 ignore_measurement_results=True)
+                try:
+                    return cirq.final_density_matrix(full, qubit_order=state["order"], dtype=DT[dt], seed=ScriptedRandomState(ch),
+                                                     ignore_measurement_results=True)
+                except ValueError as e:
+                    if "Unexpected extra qubits" in str(e) and "_MeasurementQid" in str(e) and state["order"] is qs:
+                        fallback_order()
+                        return cirq.final_density_matrix(full, qubit_order=state["order"], dtype=DT[dt],
+                                                         seed=ScriptedRandomState(ch), ignore_measurement_results=True)
+                    raise
             except TypeError as e:
                 if "unhashable type" in str(e):
                     raise Viol("unhashable", "skip")
@@ -570,14 +577,15 @@ def run_dm(case):
                 got.append((ch.weight, rho))
         except Viol as v:
             if v.kind == "skip":
-                # API rejections of cirq.final_density_matrix that are reported ONCE by stage final_density_matrix_api
-                # (unhashable KrausChannel / MixedUnitaryChannel; measurement of a qudit; repeated equal measurement) or
+                # API rejections of cirq.final_density_matrix that are reported ONCE by stage api_acceptance
+                # (unhashable channel gates; keyed mid-circuit channel; measurement of a qudit; repeated equal measurement) or
                 # documented (classically controlled non-mixture channel)
                 return Res(skipped=True, nontrivial=False, counters={"fdm_rejected_" + str(v).split()[0]: 1})
             return bad(str(v), kind=v.kind)
         if len(got) != 1:
             return bad(f"final_density_matrix(ignore_measurement_results=True) drew random numbers ({len(got)} paths): {desc}", kind="fdm_random")
         rho = np.asarray(got[0][1], dtype=complex)
+        ref_tot = state["ref"]
         if rho.shape != ref_tot.shape:
             return bad(f"final_density_matrix returned shape {rho.shape}, expected {ref_tot.shape}: {desc}", kind="fdm_shape")
         try:
@@ -600,7 +608,10 @@ def run_dm(case):
         recs = []
         last = None
         k = 0
-        for step, moment in zip(sim.simulate_moment_steps(circ, qubit_order=qs, initial_state=init), circ):
+        steps = sim.simulate_moment_steps(circ, qubit_order=qs, initial_state=init)
+        if any(not _L[li].op.qubits for li in seq):
+            steps = _zero_qubit_guard(steps)
+        for step, moment in zip(steps, circ):
             rho = np.asarray(step.density_matrix(copy=True), dtype=complex)
             check_valid_rho(rho, 10 * atol, f"after moment {k}")
             for key in moment_keys(moment):
@@ -614,6 +625,8 @@ def run_dm(case):
             npaths += 1
             got[rec] = got[rec] + ch.weight * rho if rec in got else ch.weight * rho
     except Viol as v:
+        if v.kind == "skip":
+            return Res(skipped=True, nontrivial=False, counters={"dm_rejected_" + str(v): 1})
         return bad(f"{v}: {desc}\n{circ}", kind=v.kind)
     tot = sum(np.trace(r).real for r in got.values())
     if abs(tot - 1) > atol:
@@ -622,6 +635,17 @@ def run_dm(case):
     if msg:
         return bad(f"DensityMatrixSimulator: {msg}\n{desc}\n{circ}", kind="dm_state")
     return Res(ok=True, nontrivial=nontrivial(seq), counters={"paths": npaths})
+
+
+def _zero_qubit_guard(steps):
+    """A zero-qubit operation (global phase) on the split density-matrix state: the rejection "must be views of" is
+    reported once by stage api_acceptance (case dm_global_phase_split)."""
+    try:
+        yield from steps
+    except ValueError as e:
+        if "must be views of" in str(e):
+            raise Viol("zero_qubit_op", "skip")
+        raise
 
 
 def describe_dm(case):
@@ -757,7 +781,7 @@ def ref_super_to_kraus(S, d):
     return [np.sqrt(max(w_, 0.0)) * v[:, i].reshape(d, d) for i, w_ in enumerate(w) if w_ > 1e-13]
 
 
-HAS_MIXTURE = {"H", "XPow", "CNOT", "CZPow", "MatrixGate3", "MatrixGate23", "depolarize", "asymmetric_depolarize", "bit_flip",
+HAS_MIXTURE = {"GlobalPhase", "H", "XPow", "CNOT", "CZPow", "MatrixGate3", "MatrixGate23", "depolarize", "asymmetric_depolarize", "bit_flip",
                "phase_flip", "depolarize2", "asymmetric_depolarize2", "MixedUnitaryChannel", "MixedUnitaryChannel+key",
                "MixedUnitaryChannel2q+key", "RandomGateChannel(unitary)", "RandomGateChannel(qutrit)", "RandomGateChannel(mixture)"}
 
@@ -843,8 +867,16 @@ def run_desc_circuit(case):
     D = int(np.prod(shape))
     desc = f"moments={[names(mo) for mo in moms]}"
     if any(_L[li].qt for li in lis):
-        # qudits: Moment._has_kraus_ promises a Kraus representation; reported by stage api_qudit_support when it fails
-        return Res(skipped=True, nontrivial=False)
+        # qudits: Moment._has_kraus_ promises a Kraus representation but Moment._kraus_ may assume qubits ("cannot reshape
+        # array"): that rejection is reported once by stage api_acceptance; when it works it is checked like the others
+        try:
+            for moment in moments:
+                cirq.kraus(moment)
+            circ._superoperator_()
+        except ValueError as e:
+            if "cannot reshape" in str(e) or "Wrong shape of qids" in str(e):
+                return Res(skipped=True, nontrivial=False, counters={"qudit_moment_rejected": 1})
+            raise
     S = np.eye(D * D, dtype=complex)
     for mo, moment in zip(moms, moments):
         mqs = sorted(moment.qubits)
@@ -1342,6 +1374,18 @@ def moms_valid(moms):
 _allow_repeated_key = False
 
 
+def _props_repeated_key_ok(m):
+    """Structural probe: does the model keep two different measurements with one key apart?"""
+    if "props_rk" not in _CACHE:
+        try:
+            noisy = cirq.Circuit(cirq.measure(a, key="m"), cirq.measure(b, key="m")).with_noise(m)
+            meas = [op.qubits for op in noisy.all_operations() if isinstance(op.gate, cirq.MeasurementGate)]
+            _CACHE["props_rk"] = meas == [(a,), (b,)]
+        except ValueError:
+            _CACHE["props_rk"] = False
+    return _CACHE["props_rk"]
+
+
 def run_noise(case):
     alpha, midx, model = case
     A = (_MA, _MB, _MC)[alpha]
@@ -1354,7 +1398,7 @@ def run_noise(case):
     desc = f"model={model} moments={[list(mo) for mo in moms]}"
     m, ref_fn, sv_ok = build_model(model, sysq)
     psi, rho0 = _INIT[2][1]
-    if model[0] == "props" and not _allow_repeated_key:
+    if model[0] == "props" and not _allow_repeated_key and not _props_repeated_key_ok(m):
         by_key = {}
         for mo in moms:
             for x in mo:
@@ -1453,7 +1497,7 @@ def run_thermal_kraus(case):
 
 API_CASES = ["fdm_kraus_channel", "fdm_mixed_unitary_channel", "fdm_state_preparation_channel", "fdm_keyed_channel_midcircuit", "fdm_qutrit_measurement", "fdm_explicit_order_midcircuit_measurement",
              "fdm_explicit_order_classical_control", "fdm_repeated_measurement_classical_control", "moment_kraus_qutrit", "circuit_superoperator_qutrit", "thermal_noise_qutrit",
-             "noise_properties_one_tree_per_moment", "noise_properties_repeated_key"]
+             "noise_properties_one_tree_per_moment", "noise_properties_repeated_key", "dm_global_phase_split"]
 
 
 def run_api(case):
@@ -1535,6 +1579,14 @@ def run_api(case):
                 return bad(f"NoiseModelFromNoiseProperties.noisy_moments returned {len(trees)} entries for {len(c)} moments (documented: "
                            f"the k'th tree is the noisy version of the k'th moment); simulate_moment_steps(noise=model) yields {steps} "
                            f"steps for {len(c)} moments", kind="api", defect=name)
+            return good()
+        if name == "dm_global_phase_split":
+            c = cirq.Circuit(cirq.H(a), cirq.global_phase_operation(1j), cirq.amplitude_damp(0.5).on(a))
+            r = cirq.DensityMatrixSimulator(dtype=np.complex128, split_untangled_states=True).simulate(c)
+            rho = HAD @ np.diag([1, 0]).astype(complex) @ HAD
+            rho = sum(k @ rho @ k.conj().T for k in k_amp_damp(0.5))
+            if not close(r.final_density_matrix, rho, 1e-7):
+                return bad("DensityMatrixSimulator with a global phase operation: wrong final state", kind="api", defect=name)
             return good()
         if name == "noise_properties_repeated_key":
             global _allow_repeated_key
@@ -1670,7 +1722,13 @@ def stages(tier, seed):
             for j in c1two:
                 for k in c1two:
                     desc_circ.append(((i,), (j,), (k,)))
-    qt_moms = [((i,),) for i in full if _L[i].qt and _L[i].kind != "cc"]
+    qt_letters = [i for i in full if _L[i].qt and _L[i].kind != "cc"]
+    qt_moms = [((i,),) for i in qt_letters]
+    for i in qt_letters:
+        if tuple(_L[i].op.qubits) == (t,):
+            for j in core2:
+                if _L[j].kind != "cc" and not _L[j].qt:
+                    qt_moms += [((i, j),), ((j, i),), ((j,), (i,))]
     desc_circ += qt_moms
     # ---- stage 4: noise models
     models_plain = [("const", gi, pre) for gi in range(len(_NG)) for pre in (False, True)] + [("like_gate", 0), ("like_gate", 1),
